@@ -94,11 +94,11 @@ func nslots(fn *ssa.Function) int { return len(fn.Params) + len(fn.FreeVars) }
 
 func slotName(fn *ssa.Function, i int) string {
 	if i < len(fn.Params) {
-		return fn.Params[i].Name()
+		return pname(fn.Params[i])
 	}
 	j := i - len(fn.Params)
 	if j < len(fn.FreeVars) {
-		return "free:" + fn.FreeVars[j].Name()
+		return "free:" + pname(fn.FreeVars[j])
 	}
 	return fmt.Sprint("slot", i)
 }
